@@ -8,6 +8,7 @@ import (
 	"sort"
 	"strings"
 	"sync"
+	"syscall"
 	"testing"
 	"time"
 
@@ -471,6 +472,11 @@ func genModel(p *simkit.Plan, r *simkit.Rand, tier string) {
 			p.Faults = append(p.Faults, simkit.Fault{Kind: "scan_error", Key: simkit.Pick(r, []string{"alpha", "beta"}), Nth: r.Range(1, 5), Arg: int64(r.Intn(2))})
 		}
 	}
+	if lifecycle && r.Chance(1, 3) {
+		// A save of the session file fails (full disk) - typically the one a
+		// Pause performs.
+		p.Faults = append(p.Faults, simkit.Fault{Kind: "save_fail", Key: "sessions", Nth: r.Range(2, 6)})
+	}
 	if lifecycle && r.Chance(1, 4) {
 		p.Faults = append(p.Faults, simkit.Fault{Kind: "connect_error", Key: simkit.Pick(r, []string{"alpha", "beta"}), Nth: r.Range(1, 3)})
 	}
@@ -627,6 +633,22 @@ func execSession(t *testing.T, plan *simkit.Plan) *simkit.Result {
 				kind := filepath.Base(filepath.Dir(target))
 				if step == "write" {
 					s.Occur("save." + kind)
+				}
+				// Fault kind save_fail: the Nth save of a file of that kind fails
+				// for real (the temporary's descriptor is redirected to
+				// /dev/full, so mutagen's own write gets ENOSPC and its own
+				// error path runs).
+				if step == "write" && temporary != nil && !s.FaultsStopped() {
+					for _, f := range s.FaultsOfKind("save_fail") {
+						if f.Key == kind && s.OccurCount("save."+kind) == f.Nth {
+							if full, err := os.OpenFile("/dev/full", os.O_WRONLY, 0); err == nil {
+								syscall.Dup3(int(full.Fd()), int(temporary.Fd()), 0)
+								full.Close()
+								s.Count("fault.save_fails", 1)
+								s.Logf("fault", "save %d of %s fails (no space left on device)", f.Nth, kind)
+							}
+						}
+					}
 				}
 				for _, f := range s.FaultsOfKind("crash_step") {
 					if s.FaultsStopped() || f.Key != kind || f.S != step {
